@@ -85,6 +85,9 @@ impl<M> Camera<M> {
         else {
             unreachable!("bounded ∩ bounded should be bounded")
         };
+        // If the bounds lie entirely outside the frame, the intersection is
+        // empty but its left or top bound may still exceed the right or bottom
+        let (l, t) = (l.min(r), t.min(b));
 
         Self {
             dims: (r.abs_diff(l), b.abs_diff(t)),
